@@ -1,2 +1,61 @@
-(* C04 -- theorems are being added *)
-From ZK Require Import Laws.
+(* C04 -- BBS proof soundness.  Proved here: every proof with an identity among Abar, Bbar, D is rejected by the decoder
+   AND by the verifier itself (the F1 forgery family); an accepted proof pins its challenge to the hash of the recomputed
+   commitments and satisfies the pairing equation with non-identity points (the starting point of the extractor).
+   The statement-binding / bit-flip clauses rest on collision resistance: covered by correspondence + sweep. *)
+From ZK Require Import Laws BaseLemmas ModelLemmas SignProofs Codec Soundness.
+
+Theorem C04_core_proof_verify_degenerate :
+  forall (E : env) (LW : Laws E) pk p g header ph dm di api,
+  p_Abar E p = g1_zero (PR E) \/ p_Bbar E p = g1_zero (PR E) \/ p_D E p = g1_zero (PR E) ->
+  core_proof_verify E pk p g header ph dm di api = Err.
+Proof. exact core_proof_verify_degenerate. Qed.
+Check (C04_core_proof_verify_degenerate :
+  forall (E : env) (LW : Laws E) pk p g header ph dm di api,
+  p_Abar E p = g1_zero (PR E) \/ p_Bbar E p = g1_zero (PR E) \/ p_D E p = g1_zero (PR E) ->
+  core_proof_verify E pk p g header ph dm di api = Err).
+Print Assumptions C04_core_proof_verify_degenerate.
+
+Theorem C04_proof_verify_degenerate :
+  forall (E : env) (LW : Laws E) p pk dmsgs idx header ph,
+  suite_ok E ->
+  p_Abar E p = g1_zero (PR E) \/ p_Bbar E p = g1_zero (PR E) \/ p_D E p = g1_zero (PR E) ->
+  proof_verify E p pk dmsgs idx header ph = Err.
+Proof. exact proof_verify_degenerate. Qed.
+Check (C04_proof_verify_degenerate :
+  forall (E : env) (LW : Laws E) p pk dmsgs idx header ph,
+  suite_ok E ->
+  p_Abar E p = g1_zero (PR E) \/ p_Bbar E p = g1_zero (PR E) \/ p_D E p = g1_zero (PR E) ->
+  proof_verify E p pk dmsgs idx header ph = Err).
+Print Assumptions C04_proof_verify_degenerate.
+
+Theorem C04_pok_identity_rejected :
+  forall (E : env) (LW : Laws E) b p, pok_from_bytes E b = Ok p -> pok_points_ok E p.
+Proof. exact pok_identity_rejected. Qed.
+Check (C04_pok_identity_rejected :
+  forall (E : env) (LW : Laws E) b p, pok_from_bytes E b = Ok p -> pok_points_ok E p).
+Print Assumptions C04_pok_identity_rejected.
+
+Theorem C04_core_proof_verify_accepts :
+  forall (E : env) (LW : Laws E) pk p g header ph dm di api,
+  core_proof_verify E pk p g header ph dm di api = Ok tt ->
+  exists ir, proof_verify_init E pk p g header dm di api = Ok ir /\
+    proof_challenge_calculate E ir di dm ph api = Ok (p_chal E p) /\
+    fmul (SO E) (dl1 E LW (p_Abar E p)) (dl2 E LW pk) = dl1 E LW (p_Bbar E p) /\
+    p_Abar E p <> g1_zero (PR E) /\ p_Bbar E p <> g1_zero (PR E) /\ p_D E p <> g1_zero (PR E).
+Proof. exact core_proof_verify_accepts. Qed.
+Check (C04_core_proof_verify_accepts :
+  forall (E : env) (LW : Laws E) pk p g header ph dm di api,
+  core_proof_verify E pk p g header ph dm di api = Ok tt ->
+  exists ir, proof_verify_init E pk p g header dm di api = Ok ir /\
+    proof_challenge_calculate E ir di dm ph api = Ok (p_chal E p) /\
+    fmul (SO E) (dl1 E LW (p_Abar E p)) (dl2 E LW pk) = dl1 E LW (p_Bbar E p) /\
+    p_Abar E p <> g1_zero (PR E) /\ p_Bbar E p <> g1_zero (PR E) /\ p_D E p <> g1_zero (PR E)).
+Print Assumptions C04_core_proof_verify_accepts.
+
+(* truncation / extension by anything but whole scalars is a decoding error *)
+Theorem C04_pok_strict :
+  forall (E : env) b, (forall k, length b <> (272 + 32 * k)%nat) -> pok_from_bytes E b = Err.
+Proof. exact pok_strict. Qed.
+Check (C04_pok_strict :
+  forall (E : env) b, (forall k, length b <> (272 + 32 * k)%nat) -> pok_from_bytes E b = Err).
+Print Assumptions C04_pok_strict.
